@@ -196,6 +196,16 @@ def _one(ctx, rng, k, net=None, o=None, cc_notrav=None, src=None):
     except Exception as e:
         mg = None
         impl["graph"] = "raise:" + type(e).__name__
+    # the build stage, observed on the real code: the same call with all buses in service and without nogobuses /
+    # notravbuses (bus.in_service is read by the removal stage only, create_graph.py:280)
+    keep = net.bus["in_service"].copy()
+    try:
+        net.bus["in_service"] = True
+        impl["build"] = _graph_obs(top.create_nxgraph(net, **dict(o, nogobuses=None, notravbuses=None)), o["multi"])
+    except Exception as e:
+        impl["build"] = "raise:" + type(e).__name__
+    finally:
+        net.bus["in_service"] = keep
     if mg is not None:
         try:
             impl["cc"] = sorted(set(tuple(sorted(int(x) for x in c)) for c in top.connected_components(mg, notravbuses=set(cc_notrav))))
@@ -251,11 +261,49 @@ def _judge_dist0(ctx, c, m0):
                       % (js["src"], d_impl, {x: float(v) for x, v in bd.items()}), js)
 
 
+def _judge_stages(ctx, c, m_build):
+    """build-stage graph of the real code vs C26.Model.build_stage, and the statement of C26_stages_exact evaluated on the
+    real code: returned graph = build-stage graph restricted to the buses that are not gone, minus the arcs leaving
+    notravbuses; no dangling arc"""
+    js, impl, net, o = c["js"], c["impl"], c["net"], c["o"]
+    ib = impl["build"]
+    ctx.corr_checked += 1
+    if isinstance(ib, str):
+        if not (isinstance(m_build, cq.Err) and m_build.s == ib.split(":")[1]):
+            ctx.disagreement("build stage raised %s, model %r" % (ib, m_build), js)
+        return
+    if isinstance(m_build, cq.Err):
+        ctx.disagreement("model build stage raises %s, impl returned a graph" % m_build.s, js)
+        return
+    mn, ma = sorted(m_build[0]), sorted(tuple(a) for a in m_build[1])
+    if mn != ib[0] or ma != ib[1]:
+        ctx.disagreement("build-stage graph differs: impl nodes %s arcs %s / model nodes %s arcs %s" % (ib[0], ib[1][:12], mn, ma[:12]), js)
+    ctx.count("build_arcs_%s" % ("0" if not ib[1] else "1-6" if len(ib[1]) <= 6 else "7+"))
+    if isinstance(impl["graph"], str):
+        return
+    nogo = set(o["nogobuses"] or [])
+    notrav = set(o["notravbuses"] or [])
+    oosb = set() if o["include_out_of_service"] else set(int(b) for b in net.bus.index[~net.bus.in_service.values.astype(bool)])
+    gone = nogo | oosb
+    want_nodes = [x for x in ib[0] if x not in gone]
+    want_arcs = [a for a in ib[1] if a[0] not in gone and a[1] not in gone and a[0] not in notrav]
+    nodes, arcs = impl["graph"]
+    ctx.corr_checked += 1
+    if nodes != want_nodes or arcs != want_arcs:
+        ctx.disagreement("C26_stages_exact does not describe the real code: graph nodes %s arcs %s, restricted build stage nodes %s arcs %s"
+                         % (nodes, arcs[:12], want_nodes, want_arcs[:12]), js)
+    if any(a[0] not in set(nodes) or a[1] not in set(nodes) for a in arcs):
+        ctx.disagreement("returned graph has a dangling adjacency entry (C26_stages_exact: no_dangling)", js)
+    if len(want_arcs) < len(ib[1]):
+        ctx.count("stages_removed_arcs")
+
+
 def _judge(ctx, c, m):
     js, impl, net, o = c["js"], c["impl"], c["net"], c["o"]
     m, m0 = m
     _judge_dist0(ctx, c, m0)
-    m_graph, m_cc, m_dist, m_nodangle, m_sym = m
+    m_graph, m_cc, m_dist, m_nodangle, m_sym, m_build = m
+    _judge_stages(ctx, c, m_build)
     if m_nodangle is False:
         ctx.disagreement("model graph has an arc that ends at a removed node (no_dangling = false)", js)
     if m_sym is False and not (o["notravbuses"] or []):
